@@ -21,9 +21,14 @@ Theorem C20_malformed_is_loud : forall p, WFprobe p -> guard p = true -> ~ WellF
 Proof. exact malformed_is_loud. Qed.
 Print Assumptions C20_malformed_is_loud.
 
-Theorem C20_refuted_verify_path : ~ C20_full_statement /\ guard_path_not_attr F3_probe = false.
+(* the code as it is (Guards.fixed_F3 = false): refuted; with /verif/fixes/proposed_fix_C20_F3.diff applied the switch
+   is set to true and the full statement is the theorem C20_full_when_F3_fixed eq_refl *)
+Theorem C20_refuted_verify_path : fixed_F3 = false -> ~ C20_full_statement /\ guard_path_not_attr F3_probe = false.
 Proof. exact GuardsProofs.C20_refuted_verify_path. Qed.
 Print Assumptions C20_refuted_verify_path.
+Theorem C20_full_when_F3_fixed : fixed_F3 = true -> C20_full_statement.
+Proof. exact GuardsProofs.C20_full_when_F3_fixed. Qed.
+Print Assumptions C20_full_when_F3_fixed.
 
 (* the decidable test used by the correspondence run is the specification *)
 Theorem C20_test_is_spec : forall p r, WFprobe p -> (meets_spec p r = true <-> (WellFormed p \/ loud_enough p r)).
@@ -80,13 +85,24 @@ Proof. exact leftover_value_rejected. Qed.
 Print Assumptions C20_leftover_value.
 
 (* _verify_path, any network, any path *)
-Theorem C20_verify_path_partial : forall attrs net p, WFnet net -> forallb (fun k => negb (mem k attrs)) p = true ->
+Theorem C20_verify_path_partial : forall attrs net p, WFnet net ->
+  fixed_F3 || forallb (fun k => negb (mem k attrs)) p = true ->
   (verify_path attrs net p = Ok <-> Present net p).
 Proof. exact verify_path_partial. Qed.
 Print Assumptions C20_verify_path_partial.
 Theorem C20_verify_path_refuted : ~ verify_path_full_statement.
 Proof. exact verify_path_refuted. Qed.
 Print Assumptions C20_verify_path_refuted.
+Theorem C20_verify_path_repaired_full : forall attrs net p, WFnet net ->
+  (verify_path_gen true attrs net p = Ok <-> Present net p).
+Proof. exact verify_path_repaired_full. Qed.
+Print Assumptions C20_verify_path_repaired_full.
+
+(* hierarchical circuits: a path of depth + 3 components, any depth *)
+Theorem C20_hierarchical : forall k depth hnet p, WFnet (subnet hnet (firstn depth p)) ->
+  hier_result k depth hnet p = Ok -> WellFormed (PHier k depth hnet p).
+Proof. exact hier_ok_wellformed. Qed.
+Print Assumptions C20_hierarchical.
 
 Theorem C20_edge_endpoint : forall net p, WFnet net -> (edge_endpoint net p = Ok <-> Path3 net p).
 Proof. exact edge_endpoint_ok_iff. Qed.
